@@ -314,9 +314,9 @@ def lut_cases(tier):
                         outs = [(1 / 128, 0 if dtype == "int8" else 128)]
                     else:
                         outs = [(s_in, z_in), (s_in * 1.5, 0 if dtype == "int8" else 128), (s_in / 2, -5 if dtype == "int8" else 100)]
-                    alphas = [0.1, 0.01, 0.5] if op == "LEAKY_RELU" else [None]
+                    alphas = [0.1, 0.01, 0.5, 1.25] if op == "LEAKY_RELU" else [None]
                     if op == "LEAKY_RELU" and tier != "quick":
-                        alphas += [2.0, -0.2]
+                        alphas += [2.0, -0.2, 1.0, 3.0]
                     for o in outs:
                         for a in alphas:
                             cases.append(dict(op=op, dtype=dtype, in_q=[s_in, z_in], out_q=[o[0], o[1]], alpha=a))
